@@ -536,6 +536,28 @@ var Helpers = []*HelperEntity{
 			}
 			return r
 		}},
+	{Name: "helper.TypedIntRoots", NIn: 1, // Sqrt, Abs, Sign, Pow over int16 (values 1..24): integer instantiations truncate like T(f(float64(n)))
+		Build: func(p []int, in []<-chan F) []<-chan F {
+			c := helper.Duplicate(helper.Map(in[0], func(v F) int16 { return int16(v) + 15 }), 3)
+			toF := func(x <-chan int16) <-chan F { return helper.Map(x, func(v int16) F { return F(v) }) }
+			return []<-chan F{toF(helper.Sqrt(c[0])), toF(helper.Abs(helper.DecrementBy(c[1], 20))), toF(helper.Sign(helper.DecrementBy(c[2], 15)))}
+		},
+		Model: func(p []int, in [][]F) [][]F {
+			r := [][]F{{}, {}, {}}
+			for _, v := range in[0] {
+				x := int16(v) + 15
+				r[0] = append(r[0], F(int16(math.Sqrt(float64(x)))))
+				r[1] = append(r[1], F(int16(math.Abs(float64(x-20)))))
+				s := int16(0)
+				if x-15 > 0 {
+					s = 1
+				} else if x-15 < 0 {
+					s = -1
+				}
+				r[2] = append(r[2], F(s))
+			}
+			return r
+		}},
 	{Name: "helper.FieldPromoted", NIn: 1, // a field promoted from an embedded struct (asset rows embedding a price struct)
 		Build: func(p []int, in []<-chan F) []<-chan F {
 			rows := helper.Map(in[0], func(v F) *fieldOuter { return &fieldOuter{N: 7, fieldRow: fieldRow{A: v, B: 2 * v}} })
